@@ -29,5 +29,54 @@ PROPS["C19"] = dict(
           bounds="all 4 classes x all 4096 methods"),
         K("c19::c19_all_type_values", encodes="from_bytes on every 16-bit value: NotStun iff top bits set, else unique (class, method)",
           bounds="all 65536 values"),
+        K("c19::c19_transaction_id_mask", encodes="TransactionId::from(u128) keeps exactly the low 96 bits; equality = low-96 equality",
+          bounds="all u128 x u128"),
+        K("c19::c19_header_layout", encodes="real builder: type at 0..2, cookie at 4..8, id at 8..20; MessageHeader and Message read it back",
+          bounds="all classes x methods x u128 ids, attribute-less message"),
     ],
+)
+
+PROPS["C13"] = dict(
+    functions=["XorMappedAddress::{new,addr,to_raw,from_raw,write_into}", "XorSocketAddr::{new,xor_addr,addr}",
+               "MappedSocketAddr::{from_raw,to_raw,write_into_unchecked,length}", "bytewise_xor!"],
+    bounds="none beyond type widths: all IPv4 (2^32) / IPv6 (2^128) addresses x all ports x all u128 transaction ids",
+    outside=[],
+    jobs=[
+        K("c13::c13_ipv4", encodes="new(a,t).addr(t)==a; RFC wire layout; from_raw(to_raw) and write_into agree", bounds="2^32 x 2^16 x 2^128"),
+        K("c13::c13_ipv6", encodes="same for IPv6 incl. other-tid => other address", bounds="2^128 x 2^16 x 2^128 x 2^128"),
+        K("c13::c13_decode_wire", encodes="decoding any 8/20-byte wire value is the inverse RFC XOR", bounds="all 20-byte values x both lengths x all tids"),
+    ],
+)
+
+_c08 = []
+for _n, _b in [
+    ("message_integrity", "value 0..=24 symbolic bytes, all 65536 types"), ("message_integrity_sha256", "value 0..=36"),
+    ("userhash", "value 0..=36"), ("fingerprint", "value 0..=8"), ("priority", "value 0..=8"), ("use_candidate", "value 0..=4"),
+    ("ice_controlled", "value 0..=12"), ("ice_controlling", "value 0..=12"), ("alternate_server", "value 0..=24"),
+    ("xor_mapped_address", "value 0..=24, all tids"), ("utf8_oracle", "real core::str::from_utf8 == RFC 3629 reference on all byte strings of length 0..=4"),
+    ("username", "value 0..=6 bytes incl. all UTF-8 forms (from_utf8 replaced by the RFC 3629 reference, see utf8_oracle)"),
+    ("realm", "0..=6"), ("nonce", "0..=6"), ("software", "0..=6"), ("alternate_domain", "0..=6"),
+    ("username_enc", "all valid UTF-8 strings of 0..=6 bytes"), ("realm_enc", "0..=6"), ("nonce_enc", "0..=6"), ("software_enc", "0..=6"),
+    ("alternate_domain_enc", "0..=6"), ("error_code_len0", "value length 0"), ("error_code_len3", "value length 3"), ("error_code_len4", "value length 4, all bytes"),
+    ("error_code_len5", "5"), ("error_code_len6", "6"), ("error_code_len8", "8"), ("error_code_all_pairs", "all 65536 class/number byte pairs"),
+    ("error_code_enc_len0", "all u16 codes, empty reason"), ("error_code_enc_len1", "all u16 codes x 1-byte reasons"),
+    ("error_code_enc_len5", "all u16 codes x all valid UTF-8 reasons of 5 bytes"), ("unknown_attributes", "value 0..=7 (<=3 entries, odd lengths)"),
+    ("unknown_attributes_enc", "<=3 entries, all u16"), ("password_algorithm", "value 0..=12"), ("password_algorithms", "value 0..=12 (<=3 entries)"),
+    ("password_algorithms_enc", "1..=3 entries"), ("limit_username", "length 0..=800, from_utf8 verdict nondeterministic (stub)"),
+    ("limit_realm", "0..=800"), ("limit_nonce", "0..=800"), ("limit_software", "0..=800"), ("limit_error_code", "0..=800"),
+]:
+    _c08.append(K("c08::c08_" + _n, encodes="T::from_raw / to_raw / getters vs RFC oracle (attr_ref) for " + _n, bounds=_b,
+                  mem=12 if _n.startswith("error_code") else 6))
+
+PROPS["C08"] = dict(
+    functions=["<T as TryFrom<&RawAttribute>>::try_from for the 19 built-in T", "T::to_raw", "T::length", "T::new", "getters of each T",
+               "RawAttribute::{new,check_type_and_len}", "check_len", "MappedSocketAddr::{from_raw,to_raw}", "PasswordAlgorithmValue::{read,write}",
+               "core::str::from_utf8 (real, <= 4 bytes, in c08_utf8_oracle)"],
+    bounds="all 65536 attribute types; value length 0..=(fixed size + 4) for fixed-size types, 0..=6 bytes of arbitrary content for text "
+           "(0..=8 for ERROR-CODE), <=3 list entries, lengths 0..=800 with constant content for the 513/763/767 limits",
+    outside=["text content longer than 6 bytes (core::str::from_utf8 is trusted beyond that)", "SASLprep / 128-character limits (TODO in the code)",
+             "lists longer than 3 entries"],
+    stubs=["core::str::from_utf8 -> RFC 3629 reference utf8_ref in the text/ERROR-CODE harnesses (equivalence with the real function checked for <= 4 bytes in c08_utf8_oracle)",
+           "core::str::from_utf8 -> nondeterministic verdict, only in the c08_limit_* harnesses"],
+    jobs=_c08,
 )
